@@ -1,15 +1,4 @@
-"""Source of MANIFEST.json (run ./tools_manifest.py after editing)."""
+"""Hand-maintained parts of MANIFEST.json (run ./tools_manifest.py after editing)."""
 HOOK_COMMITS = []
-ENGINES = [{"name": "lean4+correspondence", "path": "lean/ + harness/",
-            "serves_properties": [],
-            "kind_free_text": "Lean 4 models and theorems (lean/Holpy/Cxx), tied to /repo by regenerated tables (Gen.lean) and by differential execution of compiled model drivers against the real Python"}]
-CHECKS = [
-    {"id": "C15",
-     "text": "Lean theorems about an executable model of solve_cnf for every CNF, fuel and set-iteration order; encode_* rules regenerated from library/sat.json and re-proved each run; model tied to prover/sat.py by differential runs on generated CNFs; verdicts/traces of the real solver judged by brute force and an independent trace replay. Termination is not proved (searched for with time limits).",
-     "design_ref": "DESIGN.md 4/C15",
-     "note": "Trusted: Lean kernel, propext/Classical.choice/Quot.sound, the harness generators and the recording of Python set orders, the sat.json translator. tseitin.encode is judged by the real checker plus brute-force equisatisfiability, its construction is not modelled.",
-     "technique": "Lean 4 proof over a hand-written model + differential correspondence"},
-]
-_PENDING = "check not built yet in this revision (to be claimed once its Lean model, theorems and correspondence exist)"
-NOT_APPLICABLE = [{"property_id": "C%02d" % i, "reason": _PENDING} for i in range(1, 21) if "C%02d" % i not in {c["id"] for c in CHECKS}]
-ENGINES[0]["serves_properties"] = [c["id"] for c in CHECKS]
+# property id -> reason, for properties that are NOT claimed even though a module may exist
+NOT_APPLICABLE_REASONS = {}
